@@ -209,6 +209,22 @@ def errors_stream(ctx, n):
                 L3.append(g.Line(g.Point(o + e1 * 2), g.Point(o + e1 * 2 + e2)))      # in the plane, not through the vertex
             elif np.any(bad):
                 L3.append(g.Line(g.Point(o), g.Point(o + bad)))                        # through the vertex, out of the plane
+            if len(L3) == 4 and k % 2 == 0:
+                # as collections with one good position (a proper pencil) and the bad one
+                good = [g.Line(g.Point(o), g.Point(o + d)) for d in (e1, e2, e1 + e2, e1 - e2)]
+                C = [g.LineCollection([a_, b_]) for a_, b_ in zip(good, L3)]
+                r = call_impl(lambda: g.crossratio(*C))
+                ctx.count("errors:lines3d:collection")
+                if not (r[0] == "err" and r[1] == "NotConcurrent"):
+                    ctx.disagree("C11:NotConcurrent:3d:collection", f"not-concurrent 3-D line collections vertex={o.tolist()}", "NotConcurrent", r[1:3], replay=[desc])
+                # first two lines skew at the second position
+                skew = [g.Line(g.Point(o), g.Point(o + e1)), g.Line(g.Point(o + np.array([0.0, 1.0, 0.0, 0.0])), g.Point(o + np.array([0.0, 1.0, 0.0, 0.0]) + e2)), good[2], good[3]]
+                if abs(np.linalg.det(np.array([e1[:3], e2[:3], [0.0, 1.0, 0.0]]))) > 1e-9:
+                    C2 = [g.LineCollection([a_, b_]) for a_, b_ in zip(good, skew)]
+                    r = call_impl(lambda: g.crossratio(*C2))
+                    ctx.count("errors:lines3d:collection-skew")
+                    if not (r[0] == "err" and r[1] == "NotConcurrent"):
+                        ctx.disagree("C11:NotConcurrent:3d:collection-skew", f"first two lines skew at one position, vertex={o.tolist()}", "NotConcurrent", r[1:3], replay=[desc])
             if len(L3) == 4:
                 r = call_impl(lambda: g.crossratio(*L3))
                 ctx.count("errors:lines3d")
@@ -265,7 +281,46 @@ def coincident_positions(ctx, n):
             ctx.disagree("C11:crossratio:coincident-position", desc, exp, r[1:3] if r[0] != "ok" else np.asarray(r[1]).tolist(), replay=[desc])
 
 
+def zoom_invariance(ctx, n):
+    """cross ratio of four concurrent lines / coaxial planes (and of the points) under similarity maps whose determinant is far
+    from 1 (zoom by 20, by 1/50, in the plane by 500) composed with a rotation and a translation"""
+    import geometer as g
+    rng = ctx.rng
+    for k in range(n):
+        xs = rng.sample([0.0, 1.0, 3.0, -2.0, 2.0, -1.0, 4.0], 4)
+        exp = (xs[0] - xs[2]) * (xs[1] - xs[3]) / ((xs[0] - xs[3]) * (xs[1] - xs[2]))
+        if k % 3:
+            a = np.array([rng.randint(-3, 3) + 0.3, rng.randint(-3, 3) + 0.1, rng.randint(-3, 3) + 0.4, 1.0])
+            b = np.array([rng.randint(1, 3) + 0.2, rng.randint(-2, 2) - 0.7, rng.randint(-2, 2) + 0.1, 0.0])
+            P = [g.Point(a + x * b) for x in xs]
+            V, W = g.Point(5.3, 1.1 + rng.randint(0, 3), 2.2), g.Point(0.1, 1.3, 7.7 + rng.randint(0, 3))
+            s = rng.choice([20.0, 0.02])
+            t = g.rotation(0.3, g.Point(1, 2, 3)) * g.scaling(s, 1.5 * s, 0.7 * s) * g.translation(0.7, -0.2, 0.4)
+            objs = {"points": P, "lines": [V.join(p) for p in P], "planes": [g.join(V, W, p) for p in P]}
+            desc = f"zoom {s} in space a={a.tolist()} b={b.tolist()} xs={xs}"
+        else:
+            a = np.array([rng.randint(-3, 3) + 0.3, rng.randint(-3, 3) + 0.1, 1.0])
+            b = np.array([rng.randint(1, 3) + 0.2, rng.randint(-2, 2) - 0.7, 0.0])
+            P = [g.Point(a + x * b) for x in xs]
+            V = g.Point(5.3, 1.1 + rng.randint(0, 3))
+            s = rng.choice([500.0, 0.002])
+            t = g.rotation(0.3) * g.scaling(s, 1.5 * s) * g.translation(0.7, -0.2)
+            objs = {"points": P, "lines": [V.join(p) for p in P]}
+            desc = f"zoom {s} in the plane a={a.tolist()} b={b.tolist()} xs={xs}"
+        ctx.case(desc)
+        ctx.count("zoom-invariance")
+        for name, os_ in objs.items():
+            base = call_impl(lambda: g.crossratio(*os_))
+            if base[0] != "ok" or not close(float(np.real(base[1])), exp, 1e-6):
+                continue                                  # not the subject of this stream
+            r = call_impl(lambda: g.crossratio(*[t * o for o in os_]))
+            if r[0] != "ok" or not close(float(np.real(r[1])), exp, 1e-6):
+                ctx.disagree(f"C11:crossratio:zoom-invariance:{name}", desc, exp, r[1:3], replay=[desc])
+                break
+
+
 def correspondence(ctx):
+    zoom_invariance(ctx, ctx.budget(30, 300))
     coincident_positions(ctx, ctx.budget(40, 400))
     witnesses(ctx)
     cr_stream(ctx, ctx.budget(300, 5000))
